@@ -1,6 +1,7 @@
 package engine
 
 import (
+	"strings"
 	"sync"
 
 	"golang.org/x/tools/go/ssa"
@@ -15,7 +16,95 @@ const (
 )
 
 type fnInfo struct {
-	ipdom []int // per block index: immediate post-dominator block index, ipExit or ipNone
+	ipdom   []int // per block index: immediate post-dominator block index, ipExit or ipNone
+	mu      sync.Mutex
+	regions map[int]*regionInfo
+}
+
+type regionInfo struct {
+	order []*ssa.BasicBlock
+	ok    bool
+}
+
+// region returns the (cached) region between b and its post-dominator if it
+// is acyclic, small and statically free of side effects.
+func (fi *fnInfo) region(b *ssa.BasicBlock, j int) ([]*ssa.BasicBlock, bool) {
+	fi.mu.Lock()
+	defer fi.mu.Unlock()
+	if fi.regions == nil {
+		fi.regions = map[int]*regionInfo{}
+	}
+	if r, ok := fi.regions[b.Index]; ok {
+		return r.order, r.ok
+	}
+	order, ok := collectRegion(b, j)
+	if ok {
+		for _, x := range order {
+			if !pureBlock(x, 0, map[*ssa.Function]bool{}) {
+				ok = false
+				break
+			}
+		}
+	}
+	fi.regions[b.Index] = &regionInfo{order, ok}
+	return order, ok
+}
+
+var pureFnCache sync.Map // *ssa.Function -> bool
+
+func pureFn(fn *ssa.Function, depth int, visiting map[*ssa.Function]bool) bool {
+	if v, ok := pureFnCache.Load(fn); ok {
+		return v.(bool)
+	}
+	if fn.Blocks == nil || depth > 6 || visiting[fn] {
+		return false
+	}
+	if pk := fn.Package(); pk != nil && strings.HasSuffix(pk.Pkg.Path(), "internal/zzvrt") {
+		return false
+	}
+	visiting[fn] = true
+	ok := true
+	for _, b := range fn.Blocks {
+		if !pureBlock(b, depth+1, visiting) {
+			ok = false
+			break
+		}
+	}
+	delete(visiting, fn)
+	pureFnCache.Store(fn, ok)
+	return ok
+}
+
+func pureBlock(b *ssa.BasicBlock, depth int, visiting map[*ssa.Function]bool) bool {
+	for _, ins := range b.Instrs {
+		switch ins := ins.(type) {
+		case *ssa.Store, *ssa.MapUpdate, *ssa.Send, *ssa.Go, *ssa.Defer, *ssa.RunDefers, *ssa.Panic, *ssa.Select, *ssa.MakeChan, *ssa.Alloc, *ssa.MakeSlice, *ssa.MakeMap, *ssa.MakeClosure:
+			return false
+		case *ssa.Call:
+			if ins.Call.IsInvoke() {
+				return false
+			}
+			switch f := ins.Call.Value.(type) {
+			case *ssa.Builtin:
+				switch f.Name() {
+				case "len", "cap", "min", "max":
+				default:
+					return false
+				}
+			case *ssa.Function:
+				if _, isIntr := intrinsics[f.String()]; isIntr {
+					if !strings.HasPrefix(f.String(), "math") {
+						return false
+					}
+				} else if !pureFn(f, depth, visiting) {
+					return false
+				}
+			default:
+				return false
+			}
+		}
+	}
+	return true
 }
 
 var fnInfoCache sync.Map // *ssa.Function -> *fnInfo
@@ -110,8 +199,8 @@ func getFnInfo(fn *ssa.Function) *fnInfo {
 			}
 		}
 	}
-	fnInfoCache.Store(fn, info)
-	return info
+	actual, _ := fnInfoCache.LoadOrStore(fn, info)
+	return actual.(*fnInfo)
 }
 
 type ifSite struct{ ok, fail int }
@@ -176,23 +265,15 @@ func collectRegion(b *ssa.BasicBlock, j int) (order []*ssa.BasicBlock, ok bool) 
 // result merged; caller must return).
 func (ex *Exec) tryIfConvert(fr *frame, ins *ssa.If, c *Term) int {
 	b := ins.Block()
-	st := ex.w.ifSites[ins]
-	if st != nil && st.fail >= 6 && st.ok == 0 {
-		return 0
-	}
-	if st == nil {
-		st = &ifSite{}
-		ex.w.ifSites[ins] = st
-	}
 	info := getFnInfo(fr.fn)
 	j := info.ipdom[b.Index]
 	if j == ipNone {
-		st.fail += 6
 		return 0
 	}
-	region, ok := collectRegion(b, j)
+	// The decision to attempt a conversion is a static property of the code
+	// (deterministic across workers and re-executions).
+	region, ok := info.region(b, j)
 	if !ok {
-		st.fail += 6
 		return 0
 	}
 	if ex.inSpec == 0 {
@@ -217,10 +298,8 @@ func (ex *Exec) tryIfConvert(fr *frame, ins *ssa.If, c *Term) int {
 	ex.curPos, ex.curFn = savedPos, savedFn
 	if res == 0 {
 		ex.w.stats.IfConvAbort++
-		st.fail++
 	} else {
 		ex.w.stats.IfConv++
-		st.ok++
 	}
 	return res
 }
